@@ -761,7 +761,7 @@ class World(BaseWorld):
             return "skipped-large"
         if k > 3:
             self.probe("exponent_gt_3")
-        if (maxabs(A.shadow) * max(len(A.shadow.t), 1)) ** k >= LIMIT:
+        if not exact_ok(*([A.shadow] * k), product=True):
             return "skipped-inexact"
         required, permitted, want = self.pow_status(A, k)
         if not exact_ok(want):
@@ -1109,14 +1109,33 @@ def maxabs(p):
     return max((max(abs(v.numerator), v.denominator) for v in p.t.values()), default=1)
 
 
+def dyadic(p):
+    """(M, K): every coefficient is n / 2^k with k <= K and |value| <= M; None if a denominator is not a power of two."""
+    M, K = Fraction(0), 0
+    for v in p.t.values():
+        d = v.denominator
+        if d & (d - 1):
+            return None
+        K = max(K, d.bit_length() - 1)
+        M = max(M, abs(v))
+    return M, K
+
+
 def exact_ok(*polys, product=False):
-    """Are all numbers involved small enough that qubovert's float arithmetic is exact?"""
+    """Will qubovert's float arithmetic be exact?  Every intermediate sum of products must fit 52 bits over the common
+    power-of-two denominator (a product n1/2^k1 * n2/2^k2 needs |n1 n2| < 2^53, sums of T of them log2 T bits more)."""
+    ds = [dyadic(p) for p in polys]
+    if any(d is None for d in ds):
+        return False
     if product:
-        m = 1
-        for p in polys:
-            m *= maxabs(p) * max(len(p.t), 1)
-        return m < LIMIT
-    return all(maxabs(p) < LIMIT for p in polys)
+        m, k = Fraction(1), 0
+        for p, (M, K) in zip(polys, ds):
+            m *= max(M, 1) * max(len(p.t), 1)
+            k += K
+        return m * (1 << k) < (1 << 52)
+    K = max((K for _, K in ds), default=0)
+    M = sum((M for M, _ in ds), Fraction(0))
+    return M * (1 << K) < (1 << 52)
 
 
 def brief(snap):
